@@ -98,6 +98,7 @@ type c05Event struct {
 	Fwd     string            `json:"fwd"` // subnet received by the upstream, "none" if not called, "noecs" if no option
 	FwdScope int              `json:"fwdscope"`
 	Rcode   int               `json:"rcode"`
+	ExpRc   int               `json:"exprc"` // rcode the upstream gives this name
 	Written bool              `json:"written"`
 	Content string            `json:"content"` // "q@subnet" the answer was made for, recovered from the answer data
 	Beh     int               `json:"beh"`
@@ -173,8 +174,17 @@ func c05NewWorld(t *testing.T, ns string) *c05World {
 				}
 			}
 		}
-		resp.Answer = append(resp.Answer, &dns.TXT{Hdr: dns.RR_Header{Name: req.Question[0].Name, Rrtype: dns.TypeTXT,
-			Class: dns.ClassINET, Ttl: 3600}, Txt: []string{made}})
+		txt := &dns.TXT{Hdr: dns.RR_Header{Name: req.Question[0].Name, Rrtype: dns.TypeTXT,
+			Class: dns.ClassINET, Ttl: 3600}, Txt: []string{made}}
+		if strings.Contains(name, ".nx") {
+			// a negative answer (scoped like any other answer of an "s." name): what it was made
+			// for travels in the authority section next to the SOA
+			resp.Rcode = dns.RcodeNameError
+			resp.Ns = append(resp.Ns, &dns.SOA{Hdr: dns.RR_Header{Name: "example.", Rrtype: dns.TypeSOA, Class: dns.ClassINET, Ttl: 3600},
+				Ns: "ns.example.", Mbox: "m.example.", Serial: 1, Refresh: 1, Retry: 1, Expire: 1, Minttl: 3600}, txt)
+		} else {
+			resp.Answer = append(resp.Answer, txt)
+		}
 		return rw.WriteMsg(ctx, req, resp)
 	})
 	global, err := access.NewGlobal(nil, nil)
@@ -254,7 +264,8 @@ func (w *c05World) ask(t *testing.T, q c05Query, id int, beh int) c05Event {
 	req.Question = []dns.Question{{Name: q.name, Qtype: dns.TypeTXT, Qclass: dns.ClassINET}}
 	ev := c05Event{Ev: "Query", ID: id, Beh: beh, Opt: q.opt, OptSub: "none", OptLoc: "unknown", OptFam: "none",
 		Client: c05Client{Addr: q.client.String(), Fam: c05Fam(q.client), Loc: c05Loc(q.client)},
-		Q: strings.ToLower(q.name), Scoped: strings.HasPrefix(strings.ToLower(q.name), "s."), Fwd: "none", Content: "none",
+		Q: strings.ToLower(q.name), Scoped: strings.HasPrefix(strings.ToLower(q.name), "s."),
+		ExpRc: map[bool]int{true: dns.RcodeNameError, false: dns.RcodeSuccess}[strings.Contains(strings.ToLower(q.name), ".nx")], Fwd: "none", Content: "none",
 		EchoAddr: "none", OptAddr: "none", Geo: map[string]string{}}
 	if q.opt != "absent" {
 		req.SetEdns0(1232, false)
@@ -304,7 +315,7 @@ func (w *c05World) ask(t *testing.T, q c05Query, id int, beh int) c05Event {
 	if rw.msg != nil {
 		ev.Written = true
 		ev.Rcode = rw.msg.Rcode
-		for _, rr := range rw.msg.Answer {
+		for _, rr := range append(append([]dns.RR{}, rw.msg.Answer...), rw.msg.Ns...) {
 			if x, ok := rr.(*dns.TXT); ok && len(x.Txt) > 0 {
 				ev.Content = x.Txt[0]
 			}
@@ -351,7 +362,8 @@ func TestVerifC05(t *testing.T) {
 	for beh := 0; beh < n; beh++ {
 		w := c05NewWorld(t, fmt.Sprintf("c05_%d", beh))
 		out.Emit(c05Event{Ev: "Reset", Beh: beh, Geo: geo})
-		names := []string{fmt.Sprintf("s.n%d.example.", rng.Intn(2)), fmt.Sprintf("u.n%d.example.", rng.Intn(2)), "s.shared.example."}
+		names := []string{fmt.Sprintf("s.n%d.example.", rng.Intn(2)), fmt.Sprintf("u.n%d.example.", rng.Intn(2)), "s.shared.example.",
+			"s.nx.example.", "u.nx.example."}
 		steps := 8 + rng.Intn(24)
 		for i := 0; i < steps; i++ {
 			q := c05Query{client: clients[rng.Intn(len(clients))], name: names[rng.Intn(len(names))]}
